@@ -55,6 +55,12 @@ def main():
                            "detail": m["got"].get("panic") or m["got"].get("err", "")})
         for s in res["samples"][:2]:
             chk.sample(s)
+    # reflect-constructed random documents (types the zoo does not contain) x random expressions over their paths
+    rec, bad = vlib.run_random(chk, "c09-random", chk.seed + 1000, 120 if quick else 3000, 60)
+    for m in rec["never"]:
+        chk.violation({"world": "random", "expr": m["text"], "impl": m["o"]})
+    for k, v in rec["by"].items():
+        by[k] = by.get(k, 0) + v
     chk.cov["distinct_nontrivial"] = by.get("E", 0)
     chk.notes["by_outcome"] = by
     chk.notes["rule"] = ("8 operators x structural paths of 40 kind documents (every reflect.Kind incl. chan, func, complex, uintptr, unsafe "
